@@ -23,9 +23,18 @@ class PathCtx:
         self.dist_version = '0.2.5'
         self.notes = []
         self.last_store = None
+        self.oplog = {}          # thread index (None = calling thread) -> [(op, arg)] for the C16 program extraction
 
 
 CTX = None
+
+
+def oplog(op, arg=None):
+    if CTX is None:
+        return
+    cur = CTX.baton.current
+    tid = None if cur is None else CTX.baton.threads.index(cur)
+    CTX.oplog.setdefault(tid, []).append((op, arg))
 
 
 def reset_ctx():
@@ -123,11 +132,14 @@ class ShimFile:
         if end > c.length:
             c.length = end
         self.store.writes.append((self.pos, n, b))
+        if 'w' in self.mode:
+            oplog('write', len(self.store.writes) - 1)
         self.pos = end
         return n
 
     def flush(self):
-        pass
+        if 'w' in self.mode:
+            oplog('flush')
 
     def close(self):
         self.closed = True
@@ -689,6 +701,7 @@ class ShimThread:
     def start(self):
         b = CTX.baton
         b.threads.append(self)
+        oplog('start', len(b.threads) - 1)
         self.state = 'runnable'
         self.os = _threading.Thread(target=self._run, daemon=True)
         self.os.start()
@@ -732,6 +745,7 @@ class ShimQueue:
         CTX.queues.append(self)
 
     def put(self, item, block=True, timeout=None):
+        oplog('put', CTX.queues.index(self))
         if self.maxsize and len(self.items) >= self.maxsize:
             raise PipelineStuck("put() on a full queue with no consumer able to run")
         self.items.append(item)
@@ -743,6 +757,10 @@ class ShimQueue:
 
     def get(self, block=True, timeout=None):
         b = CTX.baton
+        oplog('get' if timeout is None and block else 'get_to', CTX.queues.index(self))
+        if getattr(CTX, 'force_empty', False) and not self.items:
+            import queue as _q
+            raise _q.Empty()
         while not self.items:
             t = b.current
             if t is None:
@@ -754,11 +772,13 @@ class ShimQueue:
         return self.items.pop(0)
 
     def task_done(self):
+        oplog('task_done', CTX.queues.index(self))
         if self.unfinished <= 0:
             raise ValueError('task_done() called too many times')
         self.unfinished -= 1
 
     def join(self):
+        oplog('join', CTX.queues.index(self))
         if self.unfinished:
             raise PipelineStuck("join() with %d unfinished tasks and every consumer blocked" % self.unfinished)
 
